@@ -108,6 +108,7 @@ SCENARIOS = {
     "reuse within glyph: copy skew>radial": lambda: [("e000", [(SQ, lambda: RED), (SQ2, lambda: xf(rad(), "k"))])],
     "reuse across glyphs: donor listed first, sorts last": lambda: [("u1F602", [(SQ, lambda: RED)]), ("u1F600", [(SQ2, lambda: GREEN)]), ("u1F601", [(TRI, lambda: RED), (SQ3, lambda: lin())])],
     "reuse across glyphs: names in a prefix relation, longer name listed first": lambda: [("g_1f468_1f3fb", [(SQ, lambda: RED)]), ("g_1f468", [(SQ2, lambda: GREEN), (TRI, lambda: RED)])],
+    "reuse across glyphs: glyph names with dots, black shape shared": lambda: [("base", [(TRI, lambda: RED)]), ("emoji.alt", [(SQ, lambda: BLK)]), ("emoji", [(SQ2, lambda: BLK), (TRI, lambda: GREEN)])],
     "two docs, same gradient in both": lambda: [("e000", [(TRI, lambda: lin("g"))]), ("e001", [("M1,1 L9,1 L9,7 Z", lambda: lin("g"))])],
     "one doc, two gradients differing only in residual transform": lambda: [("e000", [(SQ, lambda: xf(rad("s"), "a"))]), ("e001", [(SQ2, lambda: xf(rad("s"), "b"))])],
     "three unrelated glyphs listed out of name order": lambda: [("e002", [(TRI, lambda: RED)]), ("e000", [("M1,1 L9,1 L9,7 Z", lambda: GREEN)]), ("e001", [("M2,2 L8,2 L2,9 Z", lambda: RED)])],
@@ -545,9 +546,10 @@ def jobs(tier):
     from harness import color_strings
 
     js += color_strings.jobs(tier)  # every colour written into a document goes through Color.to_string
-    from harness import C07_rawsvg
+    from harness import C07_rawsvg, C16
 
     js += C07_rawsvg.jobs(tier)  # untouched SVG: one record per glyph, in glyph id order
+    js.append(Job("contract:transformed", C16.job_transformed))  # a gradient's residual matrix is read back from what transformed() chose
     # colour, stop colour and alpha of every layer come from the source through ColorGlyph.create, whatever the format
     from harness import C01_source
 
